@@ -890,7 +890,7 @@ func (e *SpecEnv) callExpr(n *ast.CallExpr) Value {
 		saved := e.assigned
 		var names []string
 		for h := range ex.heapSorts {
-			if !skip[h] {
+			if !skip[h] && !coveredBy(skip, h) {
 				names = append(names, h)
 			}
 		}
